@@ -332,7 +332,8 @@ func looksLikeManifest(b []byte) bool {
 	if json.Unmarshal(b, &p) != nil {
 		return false
 	}
-	return p.SchemaVersion > 0 && (strings.Contains(p.MediaType, "manifest") || strings.Contains(p.MediaType, "index") || p.MediaType == "")
+	// (the OCI artifact manifest carries no schemaVersion)
+	return (p.SchemaVersion > 0 && (strings.Contains(p.MediaType, "manifest") || strings.Contains(p.MediaType, "index") || p.MediaType == "")) || p.MediaType == gen.MTOCIArtifact
 }
 
 func (c *copyCase) snapshot() {
